@@ -1088,6 +1088,9 @@ class Interp:
         if isinstance(v, SOpaque):
             from . import opaque
             return opaque.truth(v)
+        if type(v).__name__ == "SFloat":
+            from . import fpmodel
+            return fpmodel.truth(v)
         if z3.is_expr(v):
             return v
         if isinstance(v, Sym):
@@ -1125,6 +1128,9 @@ class Interp:
         if type(a).__name__ == "SInstantSeconds" or type(b).__name__ == "SInstantSeconds":
             from . import dtmodel
             return dtmodel.compare_instant(self, op, a, b)
+        if type(a).__name__ == "SFloat" or type(b).__name__ == "SFloat":
+            from . import fpmodel
+            return fpmodel.compare(self, op, a, b)
         if isinstance(a, SOpaque) or isinstance(b, SOpaque):
             from . import opaque
             return opaque.compare(self, op, a, b)
@@ -1194,11 +1200,22 @@ class Interp:
             if isinstance(op, ast.Add):
                 return SBytes(as_bytes(a) + as_bytes(b))
             raise Undecided("bytes operator")
+        from . import fpmodel
+        if type(a).__name__ == "SInstantSeconds":
+            a = fpmodel.total_seconds(self, a.us)       # dt.timestamp() entering arithmetic: the double it is
+        if type(b).__name__ == "SInstantSeconds":
+            b = fpmodel.total_seconds(self, b.us)
+        if isinstance(a, fpmodel.SFloat) or isinstance(b, fpmodel.SFloat):
+            return fpmodel.binop(self, op, a, b)
         if isinstance(a, SOpaque) or isinstance(b, SOpaque):
             from . import opaque
             return opaque.binop(self, op, a, b)
         if isinstance(a, float) or isinstance(b, float):
+            if isinstance(a, (SInt, SBool, float)) and isinstance(b, (SInt, SBool, float)):
+                return fpmodel.binop(self, op, a, b)
             raise Undecided("float arithmetic (outside the subset)")
+        if isinstance(op, ast.Div) and isinstance(a, (SInt, SBool, int)) and isinstance(b, (SInt, SBool, int)):
+            return fpmodel.true_div_ints(self, a, b)
         if not isinstance(a, (SInt, SBool, int)) or not isinstance(b, (SInt, SBool, int)):
             raise Undecided(f"operator {type(op).__name__} on {a!r}, {b!r}")
         from .intops import int_binop
